@@ -40,22 +40,36 @@ Ltac gxsteps := repeat gxstep.
 Section Level.
 Variable c : cmd.
 
-Definition QX (lr : loop_res) : Prop :=
-  match lr with LExternal _ _ _ => is_set s_allow_external c = true | _ => True end.
-Definition early_okx (p1 : option (res loop_res) * lstate * ps) : Prop :=
-  match fst (fst p1) with Some r => gx QX r | None => True end.
+(** a postcondition [Q toks lr] on the successful result of the token loop on [toks] that (1) survives a further token
+    in front, (2) holds of every [LDone]/[LHelpSub], (3) of [LSub] with the rest of the line or -- [keep_state] -- with
+    the current token again, (4) of [LExternal] under AllowExternalSubcommands *)
+Variable Q : list bytes -> loop_res -> Prop.
+Hypothesis Q_cons : forall tok rest lr, Q rest lr -> Q (tok :: rest) lr.
+Hypothesis Q_done : forall toks st, Q toks (LDone st).
+Hypothesis Q_help : forall tok rest st, Q (tok :: rest) (LHelpSub rest st).
+Hypothesis Q_sub : forall tok rest n vaf st, Q (tok :: rest) (LSub n false vaf st rest).
+Hypothesis Q_keep : forall tok rest n vaf st, Q (tok :: rest) (LSub n true vaf st (tok :: rest)).
+Hypothesis Q_ext : forall tok rest st, is_set s_allow_external c = true -> Q (tok :: rest) (LExternal tok rest st).
 
-Lemma gx_parse_loop_ext : forall toks ls st, gx QX (parse_loop c toks ls st).
+Lemma gx_cons tok rest (r : res loop_res) : gx (Q rest) r -> gx (Q (tok :: rest)) r.
+Proof. destruct r; cbn; auto. Qed.
+
+Definition early_okq (toks : list bytes) (p1 : option (res loop_res) * lstate * ps) : Prop :=
+  match fst (fst p1) with Some r => gx (Q toks) r | None => True end.
+
+Lemma gx_parse_loop : forall toks ls st, gx (Q toks) (parse_loop c toks ls st).
 Proof.
-  induction toks as [|tok rest IH]; intros ls st; [exact I|].
+  induction toks as [|tok rest IH0]; intros ls st; [apply Q_done|].
+  assert (IH : forall ls st, gx (Q (tok :: rest)) (parse_loop c rest ls st)) by (intros; apply gx_cons; apply IH0).
+  clear IH0.
   cbn [parse_loop].
   match goal with |- gx _ (rbind ?ph _) => set (phase1 := ph) end.
-  assert (Hph : gx early_okx phase1).
+  assert (Hph : gx (early_okq (tok :: rest)) phase1).
   { subst phase1. destruct (l_trailing ls); [exact I|].
     match goal with |- gx _ (match ?x with Some _ => _ | None => _ end) => destruct x as [sc|] end.
-    { destruct (beq sc s_help && negb (is_set s_disable_help_sub c)); exact I. }
+    { destruct (beq sc s_help && negb (is_set s_disable_help_sub c)); cbn; [apply Q_help|apply Q_sub]. }
     assert (After : forall x : ps * presult * bool,
-      gx early_okx
+      gx (early_okq (tok :: rest))
          (let '(st1, pr, vaf1) := x in
           let ls1 := mkL (l_pst ls) (l_pos ls) vaf1 false in
           match pr with
@@ -74,12 +88,13 @@ Proof.
           end)).
     { intros [[st1 pr] vaf1]. cbn zeta.
       destruct pr; try exact I;
-        try (unfold gx, early_okx; cbn [fst snd]; apply IH);
+        try (unfold gx, early_okq; cbn [fst snd]; apply IH);
+        try (cbn; apply Q_sub);
         (apply gx_bindT; intros st2; exact I). }
     destruct (is_escape tok).
     { apply gx_bindT. intros sa.
       destruct (match sa with Some a => a_hyphen a | None => false end); [exact I|].
-      unfold gx, early_okx; cbn [fst snd]. apply IH. }
+      unfold gx, early_okq; cbn [fst snd]. apply IH. }
     destruct (to_long tok) as [[[f ok] v]|].
     { apply gx_bindT. intros [[st1 pr] vaf1]. cbn [fst snd].
       pose proof (After (st1, pr, vaf1)) as HA.
@@ -88,12 +103,12 @@ Proof.
     apply gx_bindT. intros [[st1 pr] vaf1].
     pose proof (After (st1, pr, vaf1)) as HA.
     destruct pr; try exact I; try exact HA.
-    destruct (fs_at st1) as [a|]; [|exact I].
-    destruct (checked_sub (cur_idx st1) a); cbn [expect rbind]; exact I. }
+    destruct (fs_at st1) as [a|]; [|cbn; apply Q_sub].
+    destruct (checked_sub (cur_idx st1) a); cbn [expect rbind]; [cbn; apply Q_keep|exact I]. }
   eapply gx_bind; [exact Hph|]. clear Hph phase1.
-  intros [[early ls1] st1] H1. unfold early_okx in H1. cbn [fst snd] in H1.
+  intros [[early ls1] st1] H1. unfold early_okq in H1. cbn [fst snd] in H1.
   destruct early as [r|]; [exact H1|]. clear H1.
-  assert (Hpos : forall pc', gx QX
+  assert (Hpos : forall pc', gx (Q (tok :: rest))
      (match get_pos c pc' with
       | Some a =>
           if a_last a && negb (l_trailing ls1) then
@@ -122,7 +137,8 @@ Proof.
       cbn zeta. apply gx_bindT.
       intros st2. destruct (check_terminator a tok); [apply IH|].
       apply gx_bindT. intros m1. destruct (negb (a_is_multiple a)); apply IH.
-    - destruct (is_set s_allow_external c) eqn:Ex; [destruct (utf8_valid tok); [exact Ex|]|]; apply gx_bindT; intros; exact I. }
+    - destruct (is_set s_allow_external c) eqn:Ex; [destruct (utf8_valid tok); [cbn; apply Q_ext; reflexivity|]|];
+        apply gx_bindT; intros; exact I. }
   destruct (if l_trailing ls1 then PSValuesDone else l_pst ls1) as [|i|i].
   - cbn zeta. apply gx_bindT. intros pc'. apply Hpos.
   - apply gx_bindT. intros a.
@@ -135,7 +151,33 @@ End Level.
 
 Theorem external_guarded c toks ls st name vals st' :
   parse_loop c toks ls st = ROk (LExternal name vals st') -> is_set s_allow_external c = true.
-Proof. intros H. pose proof (gx_parse_loop_ext c toks ls st) as G. rewrite H in G. exact G. Qed.
+Proof.
+  intros H.
+  pose proof (gx_parse_loop c (fun _ lr => match lr with LExternal _ _ _ => is_set s_allow_external c = true | _ => True end)) as G.
+  specialize (G (fun _ _ _ H => H) (fun _ _ => I) (fun _ _ _ => I) (fun _ _ _ _ _ => I) (fun _ _ _ _ _ => I)
+                (fun _ _ _ H => H) toks ls st).
+  rewrite H in G. exact G.
+Qed.
+
+(** the tokens a subcommand level receives are a suffix of the tokens of its parent: the rest of the line, or -- when a
+    short flag-subcommand letter is followed by more of its cluster ([keep_state]) -- the rest with that cluster in front *)
+Definition is_suffix (s l : list bytes) : Prop := exists pre, l = pre ++ s.
+
+Theorem sub_tokens_suffix c toks ls st n keep vaf st' toks' :
+  parse_loop c toks ls st = ROk (LSub n keep vaf st' toks') -> is_suffix toks' toks.
+Proof.
+  intros H.
+  pose proof (gx_parse_loop c (fun toks lr => match lr with LSub _ _ _ _ t' => is_suffix t' toks | _ => True end)) as G.
+  assert (G' : gx (fun lr => match lr with LSub _ _ _ _ t' => is_suffix t' toks | _ => True end) (parse_loop c toks ls st)).
+  { apply G; clear.
+    - intros tok rest [| ? ? ? ? t'| |]; try exact (fun _ => I). intros [pre ->]. exists (tok :: pre). reflexivity.
+    - intros; exact I.
+    - intros; exact I.
+    - intros tok rest n vaf st. exists [tok]. reflexivity.
+    - intros tok rest n vaf st. exists []. reflexivity.
+    - intros; exact I. }
+  rewrite H in G'. exact G'.
+Qed.
 
 (** * the ids collected by [validate_required] are known *)
 Definition known (c : cmd) (i : id) : Prop := id_exists c i = true.
